@@ -1214,12 +1214,20 @@ def accInsert (row : ARow) (owner : Nat) (elems : List Nat) (index : Int) (value
   | .attrProxyAccessor | .physicalLinkEndsAccessor => attrInsertM row owner elems index value
   | _ => raise (.unmodelled "insert of this accessor kind")
 
+/-- `keep = {id(v._element) for v in new_values if not isinstance(v, str | NewObject)}`: the ELEMENTS among the assigned
+values (element identity – never the objects' own `==`, which some classes override to compare a name) -/
+def setKeep (values : List Val) : List Nat :=
+  values.filterMap (fun v => match v with | .elem n => some n | _ => none)
+
+/-- `dropped = [v for v in list if id(v._element) not in keep]` -/
+def setDropped (lst : List Nat) (values : List Val) : List Nat :=
+  lst.filter (fun v => !(setKeep values).contains v)
+
 /-- `DirectProxyAccessor.__set__` for a list relation -/
 def directSet (t : Tables) (row : ARow) (owner : Nat) (values : List Val) : M Unit := do
-  let keep := values.filterMap (fun v => match v with | .elem n => some n | _ => none)
   let lst ← directGet row owner
   -- dropped = [v for v in list if id(v._element) not in keep]; self._check_deletable(dropped): refused up front
-  let dropped := lst.filter (fun v => !keep.contains v)
+  let dropped := setDropped lst values
   for v in dropped do
     if (← parentOf v).isNone then hit "set.fragment-root-refused"; raise .notImplemented
   for v in dropped do
@@ -1293,6 +1301,20 @@ def listSetItem (t : Tables) (row : ARow) (owner : Nat) (elems : List Nat) (inde
   if row.fixed != 0 && newObjs.length != row.fixed then raise .typeError
   accSet t row owner newObjs
 
+/-- Python's `l[lo:hi] = vs` (step 1) on a plain list: both bounds clamped like slice bounds, an upper bound below the
+lower one counts as the lower one (nothing is replaced, `vs` is inserted at `lo`). -/
+def pySetSlice {α : Type} (l : List α) (lo hi : Int) (vs : List α) : List α :=
+  let a := pySliceBound l.length lo
+  let b := max a (pySliceBound l.length hi)
+  l.take a ++ vs ++ l.drop b
+
+/-- `ElementListCouplingMixin.__setitem__(slice(lo, hi), values)`: `new_objs = list(self); new_objs[lo:hi] = values`,
+the fixed-length check, then the whole sequence goes to the accessor's `__set__` -/
+def listSetSlice (t : Tables) (row : ARow) (owner : Nat) (elems : List Nat) (lo hi : Int) (values : List Val) : M Unit := do
+  let newObjs := pySetSlice (elems.map Val.elem) lo hi values
+  if row.fixed != 0 && newObjs.length != row.fixed then raise .typeError
+  accSet t row owner newObjs
+
 /-- `ElementListCouplingMixin.create(typehint, **kw)` -/
 def listCreate (t : Tables) (row : ARow) (owner : Nat) (elems : List Nat) (hint : Option String)
     (kw : List (String × Slot × KwVal)) : M Nat := do
@@ -1305,9 +1327,11 @@ def listCreate (t : Tables) (row : ARow) (owner : Nat) (elems : List Nat) (hint 
     | .typecastAccessor => raise (.unmodelled "TypecastAccessor.create")
     | .attributeAccessor => raise (.unmodelled "AttributeAccessor.create (own _match_xtype)")
     | _ => do hit "create.not-creatable"; raise .typeError)   -- WritableAccessor.create: "Cannot create objects"
-  -- try: acc.insert(self, len(self), newobj)  except: parent._element.remove(newobj._element); raise
+  -- try: acc.insert(self, len(self), newobj)
+  -- except: loader.idcache_remove(newobj._element); parent._element.remove(newobj._element); raise   (fix 501db10:
+  -- the clean-up un-indexes what it detaches; before, an element that was still indexed stayed in the indexes)
   tryExcept (accInsert row owner elems (elems.length : Int) (.elem newobj))
-    (do hit "create.insert-failed"; removeElemNoIndex newobj)
+    (do hit "create.insert-failed"; removeElem newobj)
   pure newobj
 
 /-! ### the API surface -/
@@ -1318,6 +1342,7 @@ inductive Call
   | insert (row : ARow) (owner : Nat) (elems : Option (List Nat)) (i : Int) (v : Val)
   | delItem (row : ARow) (owner : Nat) (elems : Option (List Nat)) (i : Int)
   | setItem (row : ARow) (owner : Nat) (elems : Option (List Nat)) (i : Int) (v : Val)
+  | setSlice (row : ARow) (owner : Nat) (elems : Option (List Nat)) (lo hi : Int) (vs : List Val)   -- `lst[lo:hi] = [...]`
   | set (row : ARow) (owner : Nat) (vs : List Val)          -- `owner.attr = [...]`
   | del (row : ARow) (owner : Nat)                          -- `del owner.attr`
   | roleSet (row : ARow) (owner : Nat) (spec : NewSpec)     -- `owner.attr = NewObject(...)`
@@ -1341,6 +1366,8 @@ def apiStep (t : Tables) : Call → M (Option Nat)
       listDelItem t row owner e i; pure none
   | .setItem row owner elems i v => withElems t row owner elems fun e => do
       valKnown v; listSetItem t row owner e i v; pure none
+  | .setSlice row owner elems lo hi vs => withElems t row owner elems fun e => do
+      forM_ vs valKnown; listSetSlice t row owner e lo hi vs; pure none
   | .set row owner vs => do ensureKnown [owner]; forM_ vs valKnown; accSet t row owner vs; pure none
   | .del row owner => do ensureKnown [owner]; accDel t row owner; pure none
   | .roleSet row owner spec => do
